@@ -381,3 +381,62 @@ func vh_C14_YieldFromIOHandlers() {
 	}
 	vfReach("end")
 }
+
+// StartWithVal with values that a careless "is there a start value" test could mistake for none: nil (interface{}
+// coroutine), a nil pointer (pointer coroutine), the zero value 0 - the first YieldRef receives exactly that value
+// (and takes no request), and the requests that follow pair with the later YieldRefs as usual
+func vh_C14_StartWithValZeroLike() {
+	x, y1 := vfInt("x"), vfInt("y1")
+	switch vfChoose("element-type", 3) {
+	case 0: // interface{} coroutine started with nil
+		var target, caller *CorDef[interface{}]
+		var seen []interface{}
+		var got interface{}
+		target = Cor.New(func() {
+			seen = append(seen, target.YieldRef(-1))
+			seen = append(seen, target.YieldRef(y1))
+		})
+		caller = Cor.New(func() { got = caller.YieldFrom(target, x) })
+		if !vfNoPanic("nopanic", func() { target.StartWithVal(nil); vfQuiesce(); caller.Start(); vfQuiesce() }) {
+			return
+		}
+		vfAssert("startwithval-feeds-first-yieldref", len(seen) >= 1 && seen[0] == nil)
+		vfAssert("target-saw-every-request", len(seen) == 2 && seen[1] == interface{}(x))
+		vfAssert("caller-got-every-answer-in-order", got == interface{}(y1))
+		vfAssert("done", target.IsDone())
+	case 1: // pointer coroutine started with a nil pointer
+		var target, caller *CorDef[*int]
+		var seen []*int
+		var got *int
+		px, py := &x, &y1
+		target = CorNewGenerics[*int](func() {
+			seen = append(seen, target.YieldRef(nil))
+			seen = append(seen, target.YieldRef(py))
+		})
+		caller = CorNewGenerics[*int](func() { got = caller.YieldFrom(target, px) })
+		if !vfNoPanic("nopanic", func() { target.StartWithVal(nil); vfQuiesce(); caller.Start(); vfQuiesce() }) {
+			return
+		}
+		vfAssert("startwithval-feeds-first-yieldref", len(seen) >= 1 && seen[0] == nil)
+		vfAssert("target-saw-every-request", len(seen) == 2 && seen[1] == px)
+		vfAssert("caller-got-every-answer-in-order", got == py)
+		vfAssert("done", target.IsDone())
+	default: // int coroutine started with 0
+		var target, caller *CorDef[int]
+		var seen []int
+		got := -1
+		target = CorNewGenerics[int](func() {
+			seen = append(seen, target.YieldRef(-1))
+			seen = append(seen, target.YieldRef(y1))
+		})
+		caller = CorNewGenerics[int](func() { got = caller.YieldFrom(target, x) })
+		if !vfNoPanic("nopanic", func() { target.StartWithVal(0); vfQuiesce(); caller.Start(); vfQuiesce() }) {
+			return
+		}
+		vfAssert("startwithval-feeds-first-yieldref", len(seen) >= 1 && seen[0] == 0)
+		vfAssert("target-saw-every-request", vfAnd(len(seen) == 2, len(seen) < 2 || seen[1] == x))
+		vfAssert("caller-got-every-answer-in-order", got == y1)
+		vfAssert("done", target.IsDone())
+	}
+	vfReach("end")
+}
